@@ -374,6 +374,66 @@ def adopt_volatile_scenario(mode: int):
     return found, {"adopt-volatile-scenarios": 1}
 
 
+def lost_static_scenario():
+    """A file is declared static and read by a step; then the `static()` line is lost and another step names
+    the file as input (the build is incomplete, nothing is cleaned; the node is now UNDECLARED and still carries
+    the hash of its static past); then that step is dropped and the build is complete: the user's file stays."""
+    from simdirector import A, FifoSchedule, Project, SimDirector
+
+    keep = A.step("keep", inp=["src/a.txt"], out=["out/keep.txt"])
+    v1 = [A.static("src/a.txt", "data.txt"), A.step("reader", inp=["data.txt"], out=["out/r.txt"]), keep]
+    v2 = [A.static("src/a.txt"), A.step("reader2", inp=["data.txt"], out=["out/r2.txt"]), keep]
+    v3 = [A.static("src/a.txt"), keep]
+    project = Project(scripts={"./plan.py": v1}, files={"src/a.txt": "A1\n", "data.txt": "user data\n"})
+    found: list[Finding] = []
+    case = {"scenario": "lost-static", "reproduce": "harness/props/c06.py: lost_static_scenario()"}
+    with SimDirector(project, seed=1) as sim:
+        builds = []
+        for plan in (v1, v2, v3):
+            sim.set_script("./plan.py", plan)
+            res = sim.build(njob=1, schedule=FifoSchedule())
+            builds.append([res.status, str(res.returncode), res.tags("REMOVE")])
+            if res.status != "done":
+                return found, {"lost-static-build-" + res.status: 1}
+        case["builds"] = builds
+        if "data.txt" not in ck.snapshot(sim.root)[0]:
+            finding(found, "source-file-removed:finalize", "data.txt was never the output of any step (it was declared "
+                    "static, then merely named as an input) and was removed by the cleanup of a complete build", case)
+    return found, {"lost-static-scenarios": 1}
+
+
+def optional_readd_scenario():
+    """A step is dropped in a build that does not clean (its output stays behind, detached and OUTDATED, with
+    the old hash); the user edits the output; the step comes back as an optional step that nobody needs: it
+    is recycled, never runs, and the cleanup reverts it.  The edited file must stay."""
+    from simdirector import A, FifoSchedule, Project, SimDirector
+
+    keep = A.step("keep", inp=["src/a.txt"], out=["out/keep.txt"])
+    v1 = [A.static("src/a.txt"), A.step("opt", inp=["src/a.txt"], out=["out/opt.txt"]), keep]
+    v2 = [A.static("src/a.txt"), keep]
+    v3 = [A.static("src/a.txt"), A.step("opt", inp=["src/a.txt"], out=["out/opt.txt"], optional=True), keep]
+    project = Project(scripts={"./plan.py": v1}, files={"src/a.txt": "A1\n"})
+    found: list[Finding] = []
+    case = {"scenario": "optional-readd", "reproduce": "harness/props/c06.py: optional_readd_scenario()"}
+    with SimDirector(project, seed=1) as sim:
+        builds = []
+        for i, (plan, kw) in enumerate(((v1, {}), (v2, {"clean": False}), (v3, {}))):
+            sim.set_script("./plan.py", plan)
+            if i == 2:
+                sim.apply([("write", "out/opt.txt", "edited by the user\n")])
+            res = sim.build(njob=1, schedule=FifoSchedule(), **kw)
+            builds.append([res.status, str(res.returncode), res.tags("REMOVE")])
+            if res.status != "done":
+                return found, {"optional-readd-build-" + res.status: 1}
+        case["builds"] = builds
+        now = ck.snapshot(sim.root)[0]
+        if "out/opt.txt" not in now:
+            finding(found, "modified-output-removed:finalize:reverted-optional-step",
+                    "out/opt.txt was edited by the user after StepUp last recorded it and was removed when the optional "
+                    "step that owns it was reverted", case)
+    return found, {"optional-readd-scenarios": 1}
+
+
 def pick_build_kwargs(r, model):
     kw = {"njob": r.randint(1, 3)}
     k = r.random()
@@ -643,6 +703,12 @@ async def correspond(ctx):
 
 async def search(ctx):
     await run_histories(ctx, "oracle-hist", ctx.budget(260, 4000), with_model=False)
+    for fn in (lost_static_scenario, optional_readd_scenario):
+        found, stats = await asyncio.to_thread(fn)
+        for f in found:
+            ctx.finding(f)
+        for k, v in stats.items():
+            ctx.stats.count("scenario:" + k, v)
     for mode in (0, 1):
         found, stats = await asyncio.to_thread(adopt_volatile_scenario, mode)
         for f in found:
